@@ -593,45 +593,122 @@ def _r101_102(ctx: Ctx) -> None:
                facts={'paths': len(rets), 'flips': n_flips})
         ctx.ob('R10.2', site, f'{dname}.sweep_move writes only Z into the correction', bad_z is None, bad_z or '',
                key=f'{dname}.sweep_move|Z-only')
-        # decode returns to_bsf(correction) with the dictionary passed to sweep_move
+        # decode returns to_bsf of the very dictionary every sweep_move call updated (interpreted; identity of objects)
         dfn = ci.methods['decode']
-        rets_ = [n for n in ast.walk(dfn) if isinstance(n, ast.Return)]
-        ok = False
-        txt = ''
-        if len(rets_) == 1 and isinstance(rets_[0].value, ast.Call):
-            c = rets_[0].value
-            txt = ast.unparse(c)
-            if isinstance(c.func, ast.Attribute) and c.func.attr == 'to_bsf' and ast.unparse(c.func.value) == 'self.code' \
-                    and len(c.args) == 1 and isinstance(c.args[0], ast.Name):
-                var = c.args[0].id
-                moves = [n for n in ast.walk(dfn) if isinstance(n, ast.Call) and isinstance(n.func, ast.Attribute)
-                         and n.func.attr == 'sweep_move']
-                inits = [n for n in ast.walk(dfn) if isinstance(n, (ast.Assign, ast.AnnAssign))
-                         and any(isinstance(t, ast.Name) and t.id == var
-                                 for t in (n.targets if isinstance(n, ast.Assign) else [n.target]))]
-                ok = bool(moves) and all(len(mv.args) >= 2 and isinstance(mv.args[1], ast.Name) and mv.args[1].id == var
-                                         for mv in moves) and len(inits) == 1 \
-                    and ast.unparse(inits[0].value) in ('dict()', '{}')
-        ctx.ob('R10.2', site_of(ci.module, dfn), f'{dname}.decode returns to_bsf of the accumulated correction', ok,
-               f'returns {txt}', key=f'{dname}.decode|to_bsf', facts=txt)
+        moves = []
+        inits = []
+
+        class HDec(Hooks):
+            def attr(self, it_, obj, name, node):
+                if isinstance(obj, Obj) and obj.label == 'code' and name == 'size':
+                    return (3, 3, 3)
+                return NOT_HANDLED
+
+            def call(self, it_, func, args, kwargs, node, env):
+                if isinstance(func, BoundMethod):
+                    nm = func.closure.fn.name
+                    if nm == 'sweep_move':
+                        moves.append(args[1] if len(args) > 1 else kwargs.get('correction'))
+                        return Tagged('signs')
+                    if nm == 'get_initial_state':
+                        return Tagged('signs')
+                    if nm == 'to_bsf' and isinstance(func.obj, Obj) and func.obj.label == 'code':
+                        return Tagged('to_bsf', id(args[0]), type(args[0]).__name__)
+                if isinstance(func, Ext) and func.name == 'builtins.any':
+                    return TOP
+                return NOT_HANDLED
+        it2 = Interp(m, HDec())
+
+        def thunk2():
+            moves.clear()
+            dec = Obj(ci, 'decoder')
+            dec.fields['code'] = Obj(m.cls('StabilizerCode'), 'code')
+            dec.fields['max_rounds'] = 2
+            dec.fields['max_sweep_factor'] = 1
+            v = it2.call_closure(Closure(dfn, ci.module, ci), [Tagged('syndrome')], {}, dfn, self_obj=dec)
+            return v, [id(x) for x in moves], [type(x).__name__ for x in moves]
+        outs2 = guard('R10.2', ci.module, dfn)(lambda: it2.explore(thunk2))
+        rets2 = [o for o in outs2 if o.kind == 'return']
+        ctx.need(rets2, 'R10.2', site_of(ci.module, dfn), f'{dname}.decode: no returning path {outs2[:2]!r}')
+        bad2 = None
+        n_moves = 0
+        for o in rets2:
+            v, ids, kinds = o.value
+            n_moves += len(ids)
+            if not (isinstance(v, Tagged) and v.tag == 'to_bsf'):
+                bad2 = f'decode returns {v!r}, not to_bsf(correction)'
+                break
+            if any(i != v.args[0] for i in ids):
+                bad2 = ('sweep_move updates a different dictionary than the one converted by to_bsf: flips made in '
+                        'different sweeps are not accumulated mod 2 in one correction')
+                break
+            if v.args[1] != 'dict':
+                bad2 = f'correction is a {v.args[1]}'
+        ctx.need(n_moves > 0 or bad2, 'R10.2', site_of(ci.module, dfn), f'{dname}.decode: sweep_move never called')
+        ctx.ob('R10.2', site_of(ci.module, dfn), f'{dname}.decode returns to_bsf of the one accumulated correction', bad2 is None,
+               bad2 or '', key=f'{dname}.decode|to_bsf', facts={'paths': len(rets2), 'sweep_move_calls': n_moves})
+
+
+class _Arr:
+    """abstract array with recorded stores"""
+
+    def __init__(self, name, origin=None):
+        self.name, self.origin = name, origin
+        self.stores = []
+
+    def pqv_getattr(self, name):
+        if name == 'copy':
+            return _CallF(lambda *a, **k: _Arr(self.name + '.copy', self))
+        return TOP
+
+    def pqv_setitem(self, idx, v):
+        self.stores.append((idx, v))
+
+
+class _CallF:
+    def __init__(self, f):
+        self.f = f
+
+    def pqv_call(self, *a, **k):
+        return self.f(*a, **k)
 
 
 def _r105(ctx: Ctx) -> None:
     m = ctx.model
     for dname in ('SweepDecoder3D', 'RotatedSweepDecoder3D'):
         ci, fn = m.method(dname, 'get_initial_state')
-        # structural: a copy is taken, rows z_indices are zeroed on the copy, the copy is returned
-        body = [s for s in fn.body if not (isinstance(s, ast.Expr) and isinstance(s.value, ast.Constant))]
-        txt = '; '.join(norm_stmt(s, 60) for s in body)
-        stores = [n for n in ast.walk(fn) if isinstance(n, ast.Assign) and isinstance(n.targets[0], ast.Subscript)]
-        ok = False
-        if len(stores) == 1:
-            st = stores[0]
-            idx = ast.unparse(st.targets[0].slice)
-            val = st.value
-            ok = idx == 'self.code.z_indices' and isinstance(val, ast.Constant) and val.value == 0
-        ctx.ob('R10.5', site_of(ci.module, fn), f'{dname}.get_initial_state zeroes the vertex (Z-type) rows only', ok,
-               f'body: {txt}', key=f'{dname}.get_initial_state|rows', facts=txt)
+
+        class H(Hooks):
+            def attr(self, it, obj, name, node):
+                if isinstance(obj, Obj) and obj.label == 'code' and name in ('z_indices', 'x_indices'):
+                    return Tagged(name)
+                return NOT_HANDLED
+
+            def call(self, it, func, args, kwargs, node, env):
+                n = np_name(func)
+                if n in ('array', 'copy') and args and isinstance(args[0], _Arr):
+                    return _Arr(args[0].name + '.copy', args[0])
+                return NOT_HANDLED
+        it = Interp(m, H())
+        syn = _Arr('syndrome')
+
+        def thunk():
+            syn.stores.clear()
+            dec = Obj(ci, 'decoder')
+            dec.fields['code'] = Obj(m.cls('StabilizerCode'), 'code')
+            return it.call_closure(Closure(fn, ci.module, ci), [syn], {}, fn, self_obj=dec)
+        outs = guard('R10.5', ci.module, fn)(lambda: it.explore(thunk))
+        ctx.need(len(outs) == 1 and outs[0].kind == 'return', 'R10.5', site_of(ci.module, fn), f'{outs!r}')
+        v = outs[0].value
+        bad = None
+        if not (isinstance(v, _Arr) and v.origin is syn):
+            bad = f'returns {getattr(v, "name", v)!r}, expected a copy of the syndrome'
+        elif syn.stores:
+            bad = 'writes into the caller\'s syndrome'
+        elif v.stores != [(Tagged('z_indices'), 0)]:
+            bad = f'stores {v.stores!r}; expected exactly the vertex (Z-type) rows set to 0, face rows kept'
+        ctx.ob('R10.5', site_of(ci.module, fn), f'{dname}.get_initial_state = copy of the syndrome with the Z-type rows zeroed',
+               bad is None, bad or '', key=f'{dname}.get_initial_state|rows')
 
 
 def run(ctx: Ctx) -> None:
